@@ -48,6 +48,7 @@ package router
 
 //@ func addOrReplaceOpt(m *dnsmsg.Msg, udpSize uint16)
 //@   props C12
+//@   inline
 //@   requires m != nil && wfRecs(m.Additionals)
 //@   modifies *
 //@   ensures wfRecs(m.Additionals) && len(m.Additionals) >= 1
@@ -83,3 +84,81 @@ package router
 //@             && len(rc.Response.Msg.Questions[0].Name) == len(q.Name)
 //@             && bytesEq(rc.Response.Msg.Questions[0].Name, 0, q.Name, 0, len(q.Name))
 //@   ensures [C12:no-opt] len(rc.Response.Msg.Answers) == 0 && len(rc.Response.Msg.Authorities) == 0 && len(rc.Response.Msg.Additionals) == 0
+
+// ---- router.go: rule evaluation and request handling ------------------------------------------------
+
+//@ spec func applies(ru *rule, n dnsmsg.Name) bool = ru.matcher == nil || (mmatch(ru.matcher, n) != ru.reverse)
+//@ spec func firstApplies(r *router, n dnsmsg.Name, i int) bool = 0 <= i && i < len(r.rules) && applies(r.rules[i], n) && forall(j, 0, i, !applies(r.rules[j], n))
+//@ spec func noRuleApplies(r *router, n dnsmsg.Name) bool = forall(j, 0, len(r.rules), !applies(r.rules[j], n))
+//@ spec func emptyResp(m *dnsmsg.Msg) bool = len(m.Answers) == 0 && len(m.Authorities) == 0 && len(m.Additionals) == 0
+
+// Assumptions about the collaborators of handleReq (cache, limiter, prefetch, context):
+//@ func ctxDone(ctx context.Context) (done bool)
+//@   trusted
+//@   modifies nothing
+//@ func needPrefetch(storedTime time.Time, expireTime time.Time) (need bool)
+//@   trusted
+//@   modifies nothing
+//@ func (r *router) limiterAllowN(addr netip.Addr, n int) (err error)
+//@   trusted
+//@   modifies nothing
+//@ func (r *router) asyncSingleFlightPrefetch(q *dnsmsg.Question, remoteAddr netip.Addr, u *upstreamWrapper)
+//@   trusted
+//@   modifies nothing
+//@ func (c *cacheCtl) Get(ctx context.Context, q *dnsmsg.Question, rc *RequestContext) (m *dnsmsg.Msg, storedTime time.Time, expireTime time.Time)
+//@   trusted
+//@   requires c != nil && q != nil && rc != nil
+//@   modifies rc.Response.IpMark
+//@   ensures m != nil ==> fresh(m) && wfMsg(m) && noOPT(m.Additionals)
+//@ func (c *cacheCtl) Store(q *dnsmsg.Question, clientAddr netip.Addr, resp *dnsmsg.Msg)
+//@   trusted
+//@   requires c != nil && q != nil
+//@   modifies nothing
+//@ func (r *router) forward(ctx context.Context, upstream *upstreamWrapper, q *dnsmsg.Question, remoteAddr netip.Addr) (resp *dnsmsg.Msg, err error)
+//@   trusted
+//@   requires r != nil && upstream != nil && q != nil
+//@   modifies nothing
+//@   ensures err == nil ==> resp != nil && fresh(resp) && wfMsg(resp) && noOPT(resp.Additionals)
+//@   ensures err != nil ==> resp == nil
+
+//@ func (r *router) handleReq(ctx context.Context, q *dnsmsg.Question, rc *RequestContext)
+//@   props C03 C10 C12
+//@   requires r != nil && q != nil && rc != nil && r.cache != nil && forall(k, 0, len(r.rules), r.rules[k] != nil)
+//@   requires r.queryCacheHitTotal != nil
+//@   modifies rc.Response.Msg, rc.Response.RuleIdx, rc.Response.Cached, rc.Response.IpMark
+//@   ensures rc.Response.Msg != nil && fresh(rc.Response.Msg) && wfMsg(rc.Response.Msg)
+//@   ensures [C12:no-upstream-opt] noOPT(rc.Response.Msg.Additionals)
+//@   ensures [C10:first-match] !noRuleApplies(r, q.Name) ==> firstApplies(r, q.Name, rc.Response.RuleIdx)
+//@   ensures [C10:no-rule-refused] noRuleApplies(r, q.Name) ==> rc.Response.Msg.RCode == dnsmsg.RCodeRefused && emptyResp(rc.Response.Msg)
+//@   ensures [C10:reject] !noRuleApplies(r, q.Name) && r.rules[rc.Response.RuleIdx].reject > 0 ==>
+//@             rc.Response.Msg.RCode == dnsmsg.RCode(r.rules[rc.Response.RuleIdx].reject) && emptyResp(rc.Response.Msg)
+//@   ensures [C10:no-action-refused] !noRuleApplies(r, q.Name) && r.rules[rc.Response.RuleIdx].reject == 0 && r.rules[rc.Response.RuleIdx].upstream == nil ==>
+//@             rc.Response.Msg.RCode == dnsmsg.RCodeRefused && emptyResp(rc.Response.Msg)
+//@   callsite forward: [C10:selected-upstream] firstApplies(r, q.Name, rc.Response.RuleIdx) && r.rules[rc.Response.RuleIdx].reject == 0 && arg2 == r.rules[rc.Response.RuleIdx].upstream && arg3 == q
+//@   callsite asyncSingleFlightPrefetch: [C10:selected-upstream-prefetch] firstApplies(r, q.Name, rc.Response.RuleIdx) && r.rules[rc.Response.RuleIdx].reject == 0 && arg3 == r.rules[rc.Response.RuleIdx].upstream
+//@   callsite makeEmptyResp: [C03:rcode-table] arg2 == (matchedRule == nil ? 5 : (matchedRule.reject > 0 ? matchedRule.reject : (matchedRule.upstream == nil ? 5 : 2)))
+//@   loop 1:
+//@     invariant matchedRule == nil && rc.Response.RuleIdx == old(rc.Response.RuleIdx)
+//@     invariant forall(j, 0, rangeindex+1, !applies(r.rules[j], q.Name))
+
+//@ spec func hasOPT(rs []dnsmsg.Resource) bool = !noOPT(rs)
+//@ spec func unsupported(m *dnsmsg.Msg) bool = m.Response || !m.RecursionDesired || m.OpCode != 0 || len(m.Questions) != 1
+
+//@ func (r *router) handleReqMsg(ctx context.Context, m *dnsmsg.Msg, rc *RequestContext)
+//@   props C03 C10 C12
+//@   requires r != nil && m != nil && rc != nil && wfMsg(m) && r.cache != nil && forall(k, 0, len(r.rules), r.rules[k] != nil)
+//@   requires r.queryCacheHitTotal != nil && r.logger != nil
+//@   modifies *
+//@   ensures rc.Response.Msg != nil && wfMsg(rc.Response.Msg)
+//@   ensures [C03:header] rc.Response.Msg.ID == old(m.ID) && rc.Response.Msg.Response && rc.Response.Msg.OpCode == old(m.OpCode)
+//@             && rc.Response.Msg.RecursionAvailable && rc.Response.Msg.RecursionDesired == old(m.RecursionDesired)
+//@   ensures [C03:notimp] old(unsupported(m)) ==> rc.Response.Msg.RCode == dnsmsg.RCodeNotImplemented && emptyResp(rc.Response.Msg)
+//@   ensures [C03:one-question] len(rc.Response.Msg.Questions) <= 1 || !old(unsupported(m))
+//@   ensures [C12:opt-iff-query-opt] !old(unsupported(m)) && !old(hasOPT(m.Additionals)) ==> noOPT(rc.Response.Msg.Additionals)
+//@   ensures [C12:own-opt-last] !old(unsupported(m)) && old(hasOPT(m.Additionals)) ==> len(rc.Response.Msg.Additionals) >= 1
+//@             && isOPT(rc.Response.Msg.Additionals[len(rc.Response.Msg.Additionals)-1])
+//@             && atMostOneOPT(rc.Response.Msg.Additionals)
+//@             && ptrOf(rc.Response.Msg.Additionals[len(rc.Response.Msg.Additionals)-1], dnsmsg.RawResource).Data == nil
+//@             && ptrOf(rc.Response.Msg.Additionals[len(rc.Response.Msg.Additionals)-1], dnsmsg.RawResource).Class == dnsmsg.Class(1200)
+//@   loop 1:
+//@     invariant !clientSupportEDNS0 && forall(k, 0, rangeindex+1, !isOPT(m.Additionals[k]))
